@@ -2,7 +2,7 @@
    Sources: inner/directions/panoc/{lbfgs,anderson,noop,structured-lbfgs}.hpp,
             implementation/inner/directions/panoc/structured-lbfgs.tpp,
             accelerators/{lbfgs,anderson}.hpp (modelled in Lbfgs.v / LMQR.v, the C09 / C10 models),
-            problem/box-constr-problem.hpp (eval_inactive_indices_res_lna: Prox.inactive_indices, the C15 model),
+            problem/box-constr-problem.hpp (eval_inactive_indices_res_lna: inactive_indices_x = Prox.inactive_indices, the C15 model, for finite data),
             implementation/inner/panoc-helpers.tpp (calc_augmented_lagrangian_hessian_prod_fd).
 
    A provider is a record of operations over a state type D (the PANOCDirection concept):
@@ -98,6 +98,31 @@ Section Directions.
         (fun a => aa_reset a).
   End AndersonDir.
 
+  (* ------------------------------------------------------------------ eval_inactive_indices_res_lna, infinite bounds as the C++ compares them *)
+  (* Prox.v (C15) represents an infinite box side by None and treats it as "no constraint"; that equals the C++ test
+     `C.lowerbound(i) < x_fw && x_fw < C.upperbound(i)` whenever x_fw is finite.  A diverging run can make x_fw = ±inf or NaN
+     (overflowing gradient); then `-inf < x_fw` / `x_fw < +inf` are what decides.  `-inf < v` iff v is finite or v > 0;
+     `v < +inf` iff v is finite or v < 0.  Over R (nfinite = true) this is Prox.in_interior. *)
+  Definition in_interior_x (lb ub : option T) (v : T) : bool :=
+    (match lb with None => nfinite v || (n0 <? v) | Some l => l <? v end) &&
+    (match ub with None => nfinite v || (v <? n0) | Some u => v <? u end).
+  Definition inactive1_x (lb ub : option T) (λ γ x g : T) : bool :=
+    let xfw := x - γ * g in
+    if λ =? n0 then in_interior_x lb ub xfw
+    else if γ * λ <? xfw then in_interior_x lb ub (xfw - γ * λ)
+    else if xfw <? - (γ * λ) then in_interior_x lb ub (xfw + γ * λ)
+    else false.
+  Fixpoint inactive_from_x (i : nat) (lb ub : list (option T)) (l1 : list T) (γ : T) (x g : list T) : list nat :=
+    match lb, ub, x, g with
+    | l :: lb', u :: ub', xi :: x', gi :: g' =>
+        let rest := inactive_from_x (S i) lb' ub' l1 γ x' g' in
+        if inactive1_x l u (l1_weight l1 i) γ xi gi then i :: rest else rest
+    | _, _, _, _ => []
+    end.
+  Definition inactive_indices_x (lb ub : list (option T)) (l1 : list T) (γ : T) (x g : list T) : list nat :=
+    if l1_is_zero l1 then inactive_from_x 0 lb ub [] γ x g
+    else inactive_from_x 0 lb ub l1 γ x g.
+
   (* ------------------------------------------------------------------ StructuredLBFGSDirection *)
   Section StructuredDir.
     (* the problem: C and l1 (eval_inactive_indices_res_lna of BoxConstrProblem), D, capability flags, Hessian members *)
@@ -149,7 +174,7 @@ Section Directions.
         let gx := eval_g x in
         fold_left (fun Hv i =>
                      let ζ := nth i gx n0 + nth i y n0 / nth i Σ n0 in
-                     let inactive := in_interior (nth i Dlb None) (nth i Dub None) ζ in
+                     let inactive := in_interior_x (nth i Dlb None) (nth i Dub None) ζ in
                      if inactive then Hv
                      else let gi := grad_gi x i in
                           let t := nth i Σ n0 * vdot gi q in
@@ -161,7 +186,7 @@ Section Directions.
       fold_left (fun q j => Lbfgs.upd q j (f j)) J q.
 
     Definition struct_apply (d : sdstate) (γ : T) (x xh p g q : list T) : option (bool * list T * sdstate) :=
-      let J := inactive_indices lb ub l1 γ x g in
+      let J := inactive_indices_x lb ub l1 γ x g in
       let nJ := length J in
       if Nat.eqb nJ 0 then Some (false, q, d)                               (* no free variables: q untouched *)
       else if Nat.eqb nJ n then
